@@ -21,6 +21,15 @@ import (
 
 const verifDir = "/verif"
 
+// outDir is where evidence and replays are written: /verif, unless the development tools
+// (seed and mutant evaluation against a scratch copy of the repository) redirect it.
+var outDir = func() string {
+	if d := os.Getenv("SYMGO_OUT"); d != "" {
+		return d
+	}
+	return verifDir
+}()
+
 type TierSpec struct {
 	Params map[string]int64       `json:"params"`
 	Cfg    map[string]interface{} `json:"cfg"`
@@ -241,7 +250,7 @@ func runCheck(prop, tier string, seed int64, only string) int {
 			sort.Strings(keys)
 			for i, k := range keys {
 				f := ex.findings[k]
-				dir := filepath.Join(verifDir, "replays", prop, fmt.Sprintf("%s-run%d-%d", rs.Entry, ri+1, i+1))
+				dir := filepath.Join(outDir, "replays", prop, fmt.Sprintf("%s-run%d-%d", rs.Entry, ri+1, i+1))
 				ok, out, dir := writeAndRunReplay(dir, part, rs.Entry, f, cfg.Params)
 				replayed++
 				if !ok {
@@ -356,7 +365,7 @@ func writeEvidence(prop, tier string, seed int64, spec *Spec, eng *Engine, resul
 		entries = append(entries, map[string]interface{}{
 			"entry": er.Entry, "bounds": er.Params, "paths": ex.paths, "outcomes": oc, "decisions": ex.decs,
 			"max_decisions_on_a_path": ex.maxDecs, "instructions_executed": ex.steps,
-			"queries": map[string]int64{"feasibility_and_concretisation": ex.qFeas, "vc_by_solver": ex.vcSol, "vc_by_rewriting": ex.vcRew, "vc_inherited_from_the_spawning_path": ex.vcInh},
+			"queries": map[string]int64{"feasibility_by_order_procedure": ex.qOrder, "feasibility_and_concretisation": ex.qFeas, "vc_by_solver": ex.vcSol, "vc_by_rewriting": ex.vcRew, "vc_inherited_from_the_spawning_path": ex.vcInh},
 			"solver_queries": ex.solverQ, "solver_time_s": round2(ex.solverT.Seconds()), "wall_s": round2(er.WallS),
 			"covers": ex.covers, "cuts": ex.cuts, "missing_covers": er.Missing, "findings": fl,
 			"engine_bounds": map[string]interface{}{"unwind": er.Cfg.Unwind, "max_steps": er.Cfg.MaxSteps, "map_order": er.Cfg.MapOrder,
@@ -415,9 +424,9 @@ func writeEvidence(prop, tier string, seed int64, spec *Spec, eng *Engine, resul
 	if transitions == 0 {
 		ev["coverage"].(map[string]interface{})["transitions"] = 1
 	}
-	os.MkdirAll(filepath.Join(verifDir, "evidence"), 0o755)
+	os.MkdirAll(filepath.Join(outDir, "evidence"), 0o755)
 	b, _ := json.MarshalIndent(ev, "", " ")
-	os.WriteFile(filepath.Join(verifDir, "evidence", prop+".json"), b, 0o644)
+	os.WriteFile(filepath.Join(outDir, "evidence", prop+".json"), b, 0o644)
 }
 
 func round2(f float64) float64 { return float64(int(f*100+0.5)) / 100 }
@@ -447,9 +456,13 @@ func writeAndRunReplay(dir string, spec *Spec, entry string, f *Finding, params 
 		if spec.DirectedMode == "chan" {
 			dcount = 5 // a select with several ready cases is still Go's choice
 		}
-		ok, out := runReplay(dir+"-directed", spec, entry, f, params, true, dcount)
-		if ok {
-			return true, out, dir + "-directed"
+		// (two attempts: the replay runtime's grace periods are wall-clock, a loaded machine can
+		// make one attempt diverge)
+		for attempt := 0; attempt < 2; attempt++ {
+			ok, out := runReplay(dir+"-directed", spec, entry, f, params, true, dcount)
+			if ok {
+				return true, out, dir + "-directed"
+			}
 		}
 	}
 	count := 1
@@ -615,7 +628,7 @@ func reproduced(f *Finding, out string) bool {
 // their path conditions: the native run must pass every assertion, must not find an
 // assumption false, and must print the vObserve values the symbolic run predicts.
 func validateSamples(spec *Spec, entry string, fs []*Finding, params map[string]int64) (int, string) {
-	dir := filepath.Join(verifDir, "replays", "validate", spec.PkgName+"-"+entry)
+	dir := filepath.Join(outDir, "replays", "validate", spec.PkgName+"-"+entry)
 	os.RemoveAll(dir)
 	os.MkdirAll(dir, 0o755)
 	for i, f := range fs {
